@@ -351,3 +351,103 @@ def octet_string_text_finding(w):
             return (f"a COSEM {'octet' if key.value == 9 else 'visible'} string is offered to `{what}` (alternative #{i}) before it is taken as text: identification texts whose octets "
                     "happen to fit that alternative are not stored verbatim")
     return None
+
+
+# ------------------------------------------------------------------ the P1 identification line (dlde.Ident)
+IDENT_SAMPLES = [  # line, manufacturer id, identification (None: absent) -- IEC 62056-21 6.3.3: '/' XXX Z [\\W]* identification
+    ("/LGF5E360", "LGF", "E360"),
+    ("/ISk5\\2MT382-1000", "ISk", "MT382-1000"),
+    ("/KFM5", "KFM", None),
+    ("/ADN9 7534", "ADN", " 7534"),
+    ("/AUX5\\A\\bTYPE 1", "AUX", "TYPE 1"),
+]
+IDENT_REJECTS = ["", "LGF5E360", "/lgf5E360", "/LG5E360", "/LGFXE360", "1-0:1.8.0(1*kWh)", "!", "/LGF5" + "x" * 17]
+
+
+def ident_pattern(M, ce, mod="dlde"):
+    """(pattern text, method) of the compiled regex the Ident constructor matches its line with -- found in __init__ or the helpers it calls"""
+    I = M.classes.get((mod, "Ident"))
+    if I is None or "__init__" not in I.methods:
+        return None
+    tree = M.mods[mod]
+    funcs = {n.name: n for n in ast.walk(tree) if isinstance(n, (ast.FunctionDef, ast.AsyncFunctionDef))}
+    seen, work, found = set(), [I.methods["__init__"].node], []
+    while work:
+        f = work.pop()
+        if id(f) in seen:
+            continue
+        seen.add(id(f))
+        for n in ast.walk(f):
+            if not isinstance(n, ast.Call):
+                continue
+            if isinstance(n.func, ast.Attribute) and n.func.attr in ("match", "fullmatch", "search") and isinstance(n.func.value, ast.Name):
+                init = M.mod_consts.get(mod, {}).get(n.func.value.id)
+                if isinstance(init, ast.Call) and init.args and not init.keywords and len(init.args) == 1 and "compile" in ast.unparse(init.func):
+                    try:
+                        pat = ce.eval(init.args[0], {}, mod)
+                    except NotConstant:
+                        continue
+                    if isinstance(pat, str):
+                        found.append((pat, n.func.attr))
+            nm = n.func.id if isinstance(n.func, ast.Name) else n.func.attr if isinstance(n.func, ast.Attribute) else None
+            if nm in funcs and len(seen) < 12:
+                work.append(funcs[nm])
+    if len(set(found)) != 1:
+        return None
+    return found[0]
+
+
+def ident_findings(M, mod="dlde"):
+    """Ident on sample lines (E-ABS): constructor accepts exactly the matching lines (ValueError otherwise); manufacturer_id / identification / str();
+    returns a list of (tag, text)"""
+    from sa.abseval import AbsEval
+    from sa.report import Undecided
+    I = M.classes.get((mod, "Ident"))
+    if I is None:
+        raise Undecided("anchor vanished: dlde.Ident")
+    AE = AbsEval(M)
+    out = []
+
+    def run(f):
+        try:
+            return ("value", f())
+        except Exception as ex:  # AbsRaise / NotConstant / SymbolicBranch
+            nm = type(ex).__name__
+            if nm == "AbsRaise":
+                return ("raise", ex.cls)
+            return ("undecided", f"{nm}: {ex}")
+    for line, man, ident in IDENT_SAMPLES:
+        r = run(lambda: AE.instantiate((mod, "Ident"), [line]))
+        if r[0] == "undecided":
+            raise Undecided(f"Ident({line!r}) outside the interpreted subset: {r[1]}")
+        if r[0] == "raise":
+            out.append(("ident-rejects", f"Ident({line!r}) raises {r[1]} for a well-formed identification line"))
+            continue
+        obj = r[1]
+        for prop, want, tag in (("manufacturer_id", man, "ident-group"), ("identification", ident, "ident-group"), ("__str__", line, "ident-str")):
+            fn = M.find_method((mod, "Ident"), prop)
+            if fn is None:
+                out.append((tag, f"Ident.{prop} is gone"))
+                continue
+            pr = AE.apply(fn, [obj])
+            if pr[0] in ("undecided", "branch"):
+                raise Undecided(f"Ident.{prop} outside the interpreted subset: {pr[1]}")
+            got = pr[1] if pr[0] == "value" else f"<raises {pr[1]}>"
+            if got != want:
+                out.append((tag, f"Ident({line!r}).{prop} gives {got!r} instead of {want!r}"))
+    for line in IDENT_REJECTS:
+        r = run(lambda: AE.instantiate((mod, "Ident"), [line]))
+        if r[0] == "undecided":
+            raise Undecided(f"Ident({line!r}) outside the interpreted subset: {r[1]}")
+        if r != ("raise", "ValueError"):
+            out.append(("no-raise", f"Ident({line!r}) {'is accepted' if r[0] == 'value' else 'raises ' + str(r[1])} instead of raising ValueError"))
+        st = M.find_method((mod, "Ident"), "is_ident_line")
+    st = M.find_method((mod, "Ident"), "is_ident_line")
+    if st is not None:
+        for line, want in [(l, True) for l, _, _ in IDENT_SAMPLES] + [(l, False) for l in IDENT_REJECTS]:
+            pr = AE.apply(st, [line])
+            if pr[0] in ("undecided", "branch"):
+                raise Undecided(f"Ident.is_ident_line outside the interpreted subset: {pr[1]}")
+            if pr != ("value", want):
+                out.append(("is-ident-line", f"Ident.is_ident_line({line!r}) gives {pr[1]!r} instead of {want}"))
+    return out
